@@ -101,7 +101,8 @@ pub fn check_frames(r: &Replay, g: &Game, c: &mut Case) {
         for i in 0..n {
             let occ = &r.frames[i].chars[ci].2;
             let valid = d.validity.as_ref().map_or(true, |b| b.get_bit(i));
-            if valid != occ.is_some() { c.fail("C04", format!("frame row {} port {} follower {}: present={} but history says {}", i, port, fol, valid, occ.is_some())); continue; }
+            if valid != occ.is_some() { c.fail("C04", format!("frame row {} port {} follower {}: present={} but history says {}", i, port, fol, valid, occ.is_some()));
+                c.fail("C03", format!("frame row {} port {} follower {}: {}", i, port, fol, if valid { "the row shows field values although the character has no event in that frame (they are another frame's)" } else { "the fields of the character's events in that frame are reported absent" })); continue; }
             if let Some(ev) = occ {
                 let mut pay = r.frames[i].id.to_be_bytes().to_vec(); pay.push(*port); pay.push(*fol as u8);
                 let mut p1 = pay.clone(); p1.extend(&ev.pre); let mut p2 = pay.clone(); p2.extend(&ev.post);
@@ -510,6 +511,17 @@ fn arrow(rng: &mut Rng, ctx: &mut Ctx) {
                           let mut pay = fr.id.to_be_bytes().to_vec(); pay.push(*port); pay.push(*fol as u8); pay.extend(if kind == "pre" { &ev.pre } else { &ev.post });
                           let e = spec::decode(table, v, &pay)[fi];
                           if col.get(i) != Some(&e) { return Err(format!("BYNAME exported column {} row {} is {:?}, the field's value in that frame is {}", path, i, col.get(i), e)); } } } } } } }
+            // the schema is a function of the version *argument* (and the ports): the same frames exported at an older layout — a consumer that wants the
+            // columns of 2.0 from a 3.x game — have exactly that version's field table, whatever optional columns the data carries
+            { let cands: Vec<(u8, u8, u8)> = [(0u8, 1u8, 0u8), (1, 0, 0), (2, 0, 1), (2, 2, 0), (2, 9, 9), (3, 0, 0), (3, 6, 0), (3, 7, 0), (3, 12, 0)].into_iter().filter(|c| *c < r.v).collect();
+              if !cands.is_empty() { let ov = cands[(k / 2) % cands.len()];
+                  let g3 = slippi::read(Cursor::new(&b), None).map_err(|e| format!("err {}", e))?;
+                  let sa3 = g3.frames.into_struct_array(slippi::Version(ov.0, ov.1, ov.2), &ports);
+                  let mut lv3 = vec![]; crate::arrowdump::leaves("", arrow2::array::Array::data_type(&sa3), &mut lv3);
+                  let exp3 = spec::arrow_leaves(ov, &slots_of(&r.start_block));
+                  if lv3 != exp3 { let i = lv3.iter().zip(&exp3).position(|(a, b)| a != b).unwrap_or(lv3.len().min(exp3.len()));
+                      return Err(format!("BYNAME frames of a {:?} game exported at version {:?}: schema differs from that version's field table at leaf {}: {:?} vs {:?}", r.v, ov, i, lv3.get(i), exp3.get(i))); }
+                  if arrow2::array::Array::len(&sa3) != n { return Err(format!("BYNAME frames exported at version {:?}: {} rows for {} frames", ov, arrow2::array::Array::len(&sa3), n)); } } }
             Ok::<_, String>((d, w.is_ok() && o == b, rows == n, lv))
         });
         let mut c = Case::new(format!("into {}", hex(&b)), String::new());
@@ -735,12 +747,12 @@ fn ubj(rng: &mut Rng, ctx: &mut Ctx) {
     for k in 0..ctx.n {
         let mut body = vec![]; gen_tree(rng, 1, &mut body);
         let mut clean = true;
-        if k % 20 == 19 { let d = [127usize, 128, 126, 129, 120 + (rng.next() % 20) as usize, 1000][(k / 20) % 6]; body.clear(); for _ in 0..d - 1 { body.extend(b"U\x01a{"); } for _ in 0..d - 1 { body.push(b'}'); } clean = d <= 127; }
+        if k % 20 == 19 { let d = [127usize, 128, 126, 129, 120 + (rng.next() % 20) as usize, 1000][(k / 40) % 6]; /* every other one of these is replaced by a wide tree below: indexed by k / 40 so that the deepest accepted tree comes first */ body.clear(); for _ in 0..d - 1 { body.extend(b"U\x01a{"); } for _ in 0..d - 1 { body.push(b'}'); } clean = d <= 127; }
         if k % 40 == 19 { // wide but shallow: many maps in total, little nesting
             let n = [127usize, 200, 126, 111, 180][(k / 40) % 5] + (rng.next() % 3) as usize; body.clear(); for i in 0..n { body.extend(b"U\x03"); body.extend(format!("{:03}", i).as_bytes()); body.push(b'{'); if i % 7 == 0 { body.extend(b"U\x01x{U\x01yl\x00\x00\x00\x01}"); } body.push(b'}'); } clean = true; }
         // a value that is one marker byte repeated very many times (every UBJSON marker in turn, then every other byte): whatever the reader makes of the
         // byte — a container it knows, one it does not, a scalar — it must come back with a result; recursion on input-controlled depth is an abort
-        let run = k % 16 == 7;
+        let run = k % 16 == 7 && k % 20 != 19; /* (never in place of a deep or wide tree) */
         if run { const MARKERS: &[u8] = b"[{#$NZTFiUIlLdDCSH]}"; let j = k / 16; let mk = if j < MARKERS.len() { MARKERS[j] } else { (j - MARKERS.len()) as u8 }; let depth = if ctx.thorough { 1_000_000 } else { 400_000 };
             body.clear(); body.extend(b"U\x01a"); body.extend(std::iter::repeat(mk).take(depth)); clean = false; }
         let structured = k % 20 == 19 || run; // the deep and the wide trees stay as built
